@@ -167,8 +167,8 @@ def run(prog: Program, rep: Report, tier: str = "quick") -> None:
     import re as _re
     from . import c01, c12
 
-    game.add_instances(rep, c12.closed_form_job, [(i, tier, "R8.4", ("predict_win", "predict_rank", "predict_draw")) for i in range(n)], "R8.4", 16 * n)
-    game.add_instances(rep, c01.closed_form_job, [(i, tier, "R8.5") for i in range(n)], "R8.5", 28 * n)
+    game.add_instances(rep, c12.closed_form_job, [(i, tier, "R8.4", ("predict_win", "predict_rank", "predict_draw")) for i in range(n)], "R8.4", 16 * n, counterpart_only=True)
+    game.add_instances(rep, c01.closed_form_job, [(i, tier, "R8.5") for i in range(n)], "R8.5", 28 * n, counterpart_only=True)
     rep.arbitrate({"R8.2"}, "R8.4", "the predictions are the closed forms (bounded functions of the inputs)", pred=lambda i: "predict_" in i.construct or "predict_" in i.function)
     rep.arbitrate({"R8.2"}, "R8.5", "the stored ratings are the closed forms", pred=lambda i: "stored" in i.construct)
     rep.arbitrate({"R8.1"}, "R8.5", "the stored ratings are the closed forms (their divisors are sums that contain a positive term)",
